@@ -674,6 +674,21 @@ pub fn block_of(addr: usize) -> Option<BlockInfo> {
     None
 }
 
+/// The tracked block (live or quarantined) that owns the byte at `addr` (half-open range `[ptr, ptr+size)`).
+pub fn block_of_byte(addr: usize) -> Option<BlockInfo> {
+    let g = lock();
+    let s = unsafe { st(&g) };
+    let mut i = s.n;
+    while i > 0 {
+        i -= 1;
+        let e = &s.table[i];
+        if addr >= e.ptr && addr < e.ptr + e.size {
+            return Some(info(e));
+        }
+    }
+    None
+}
+
 /// Copies out (and clears) the recorded complaints.
 pub fn take_violations(out: &mut Vec<AllocViolation>) -> usize {
     let mut tmp = [EMPTY_V; VCAP];
